@@ -36,6 +36,38 @@ type Exec struct {
 	top     *Frame
 	maxInline int
 	inlined   int
+	elemLoads map[string][]elemLoad // per element heap: the slice accesses made by the code so far
+}
+
+type elemLoad struct{ slice, idx, es string }
+
+const maxReseed = 24
+
+// noteLoad records a code-level slice access; reseed re-states the instance of the uf_at axiom for every recorded
+// access under a new version of the heap, so that quantified facts about s[i] written in one state can be
+// instantiated at the touched indices in a later state (the instances are valid for every heap: plain axioms).
+func (x *Exec) noteLoad(heap, slice, idx, es string) {
+	if x.elemLoads == nil {
+		x.elemLoads = map[string][]elemLoad{}
+	}
+	for _, l := range x.elemLoads[heap] {
+		if l.slice == slice && l.idx == idx {
+			return
+		}
+	}
+	if len(x.elemLoads[heap]) < maxReseed {
+		x.elemLoads[heap] = append(x.elemLoads[heap], elemLoad{slice, idx, es})
+	}
+}
+
+func (x *Exec) reseed(heap, version string) {
+	if len(version) > 60 || strings.ContainsAny(version, "( ") {
+		return
+	}
+	for _, l := range x.elemLoads[heap] {
+		root := app("select", app("select", version, app("s.arr", l.slice)), app("+", app("s.off", l.slice), l.idx))
+		x.vc.axiom(mkEq(x.elemAt(heap, version, l.slice, l.idx, l.es), root))
+	}
 }
 
 func (x *Exec) varSort(name string) string {
@@ -95,7 +127,36 @@ func (x *Exec) get(st *State, name string) Term {
 }
 
 func (x *Exec) set(st *State, name string, t string) {
+	prev, had := st.vars[name]
 	st.vars[name] = Term{S: t, Sort: x.varSort(name)}
+	if strings.HasPrefix(name, "HA.") {
+		x.reseed(name, t)
+		if had {
+			x.linkHeaps(name, prev.S, t)
+		}
+	}
+}
+
+func simpleConst(s string) bool { return s != "" && len(s) <= 60 && !strings.ContainsAny(s, "( ") }
+
+func (x *Exec) elemLinksOn() bool {
+	return x.top != nil && x.top.contract != nil && x.top.contract.Options["elemlinks"]
+}
+
+// linkHeaps (option elemlinks): whenever the specification-level access s[i] is known under one version of an element
+// heap, also consider it under the neighbouring version. Both formulas are instances of the defining axiom of uf_at
+// with another trigger, so nothing is assumed; they let quantified facts survive unrelated heap updates.
+func (x *Exec) linkHeaps(heap, from, to string) {
+	if !x.elemLinksOn() || from == to || !simpleConst(from) || !simpleConst(to) {
+		return
+	}
+	hs := x.varSort(heap)
+	es := hs[len("(Array Int (Array Int ") : len(hs)-2]
+	def := func(h string) string {
+		return mkEq(x.elemAt(heap, h, "s", "i", es), app("select", app("select", h, "(s.arr s)"), "(+ (s.off s) i)"))
+	}
+	x.vc.axiom(fmt.Sprintf("(forall ((s Slice) (i Int)) (! %s :pattern (%s)))", def(to), x.elemAt(heap, from, "s", "i", es)))
+	x.vc.axiom(fmt.Sprintf("(forall ((s Slice) (i Int)) (! %s :pattern (%s)))", def(from), x.elemAt(heap, to, "s", "i", es)))
 }
 
 // name binds a possibly large term to a fresh constant in node n.
@@ -337,6 +398,7 @@ func (x *Exec) loadPlace(n *Node, st *State, p *Place) Term {
 			es := x.varSort(p.varName)
 			es = es[len("(Array Int (Array Int ") : len(es)-2]
 			n.assume(mkEq(x.elemAt(p.varName, x.get(st, p.varName).S, p.slice, p.sidx, es), root))
+			x.noteLoad(p.varName, p.slice, p.sidx, es)
 		}
 		return Term{S: x.applyPath(root, p.path), Sort: sortT, T: p.typ}
 	case pObj:
